@@ -855,3 +855,20 @@ CAPI = register(Stream(
           "against their C++ counterparts incl. failures at the top of the range, primesieve_free(NULL); checked by the harness "
           "oracle only (no model line); non-trivial = every case; distinct by the operation"),
     nontrivial=None, use_model=False))
+
+
+def gen_mt(tier, r):
+    q = tier == "quick"
+    ops = []
+    for base in ([0, 10**9 + r.randrange(0, 10**6)] if q else [0, 10**6, 10**9 + r.randrange(0, 10**6), 10**12 + r.randrange(0, 10**6), 10**15]):
+        for m in ([4, 9] if q else [2, 4, 9, 16]):
+            ops.append((f"threads-{m}", f"mt {m} {6 if q else 14} {base}"))
+    return ops
+
+MT = register(Stream(
+    "mt", gen_mt,
+    rule=("cases = m user threads (2..16) each running rounds of count_primes (incl. intervals long enough for two internal worker "
+          "threads), count_twins, count_sextuplets, nth_prime, generate_primes, a C++ iterator (3000 next, 1500 prev) and a C iterator "
+          "concurrently; every result must equal the result of the same call made alone beforehand in the same process; "
+          "harness oracle only; evaluations = operations, each covering m x rounds calls; non-trivial = every case"),
+    nontrivial=None, use_model=False))
